@@ -157,6 +157,8 @@ func (c *flowCtx) stmt(s ast.Stmt) {
 			c.block(cl.Body)
 		}
 		c.emit("end")
+	case *ast.TypeSwitchStmt:
+		c.typeSwitch(s) // flow_typeswitch.go
 	case *ast.ExprStmt:
 		if c.ignorable(s.X) {
 			break
